@@ -151,7 +151,7 @@ func init() {
 		MinNontrivial: 30,
 		Phases: []fw.Phase{
 			{Name: "ledger", N: func(t fw.Tier) int { return pick(t, 2500, 40000) }, Run: func(c *fw.Case) { c14Ledger(c, false) }},
-			{Name: "builtin", Race: true, N: func(t fw.Tier) int { return pick(t, 40, 600) }, Run: c14Builtin, Batch: 8},
+			{Name: "builtin", Race: true, Serial: true, N: func(t fw.Tier) int { return pick(t, 24, 240) }, Run: c14Builtin, Batch: 8},
 			{Name: "failwait", N: func(t fw.Tier) int { return pick(t, 300, 6000) }, Run: c14FailWait},
 			{Name: "joinop", N: func(t fw.Tier) int { return pick(t, 300, 6000) }, Run: c14JoinOperand},
 			{Name: "consumed", N: func(t fw.Tier) int { return pick(t, 400, 8000) }, Run: c14Consumed},
